@@ -43,6 +43,17 @@ DecoderPaths == {
   <<"ubjson", "object-counted", <<123, 35, 105, 1, 105, 1, 97>>, <<>>, <<105, 1>>>>,
   <<"bson", "document", <<3>>, <<>>, <<>>>>,
   <<"bson", "array", <<4>>, <<>>, <<>>>> }
+\* Completed sibling items: after each of them the decoder's depth accounting must be back where it was.  The case
+\* input is  (outer indefinite/plain array open) siblings^K nest(depth-1) close ; its nesting depth is `depth`.
+Siblings == {
+  <<"json", "empty-array", <<91, 93, 44>>, <<91>>, <<93>>>>, <<"json", "nested-arrays", <<91, 91, 93, 93, 44>>, <<91>>, <<93>>>>, <<"json", "object", <<123, 34, 97, 34, 58, 91, 93, 125, 44>>, <<91>>, <<93>>>>,
+  <<"cbor", "empty-array", <<128>>, <<159>>, <<255>>>>, <<"cbor", "indef-array", <<159, 255>>, <<159>>, <<255>>>>, <<"cbor", "map", <<161, 97, 97, 128>>, <<159>>, <<255>>>>,
+  <<"cbor", "typed-array", <<216, 64, 65, 1>>, <<159>>, <<255>>>>, <<"cbor", "multi-dim-classical", <<216, 40, 130, 129, 1, 129, 0>>, <<159>>, <<255>>>>,
+  <<"cbor", "multi-dim-typed", <<216, 40, 130, 129, 1, 216, 64, 65, 1>>, <<159>>, <<255>>>>, <<"cbor", "indef-string", <<127, 97, 97, 255>>, <<159>>, <<255>>>>,
+  <<"cbor", "tagged-nested", <<193, 129, 129, 0>>, <<159>>, <<255>>>>,
+  <<"msgpack", "empty-array", <<144>>, <<220, 0, 9>>, <<>>>>, <<"msgpack", "nested-arrays", <<145, 145, 0>>, <<220, 0, 9>>, <<>>>>, <<"msgpack", "map", <<129, 161, 97, 144>>, <<220, 0, 9>>, <<>>>>,
+  <<"ubjson", "empty-array", <<91, 93>>, <<91>>, <<93>>>>, <<"ubjson", "counted-array", <<91, 35, 105, 1, 105, 1>>, <<91>>, <<93>>>>, <<"ubjson", "typed-array", <<91, 36, 105, 35, 105, 1, 1>>, <<91>>, <<93>>>>,
+  <<"ubjson", "object", <<123, 105, 1, 97, 91, 93, 125>>, <<91>>, <<93>>>> }
 EncoderFormats == {"cbor", "msgpack", "ubjson", "bson", "json"}
 EncoderKinds == {"array", "object", "array-undeclared", "object-undeclared"}
 
